@@ -9,5 +9,6 @@ CONSTANTS
 INVARIANT TypeOK
 INVARIANT RefPartial
 INVARIANT ImplAgrees
+INVARIANT NoMatchMultiDead
 INVARIANT StepsAreImplCall
 CHECK_DEADLOCK FALSE
